@@ -853,7 +853,13 @@ class Comparison(Predicate):
 
     @functools.cached_property
     def factors(self: 'Comparison') -> 'dsl.Predicate.Factors':
-        return Predicate.Factors(self) if len({f.origin for f in Column.dissect(self)}) == 1 else Predicate.Factors()
+        # a factor involves exactly one table and nothing else (in particular no element of a reference)
+        origins = {f.origin for f in Element.dissect(self)}
+        return (
+            Predicate.Factors(self)
+            if len(origins) == 1 and all(isinstance(o, framod.Table) for o in origins)
+            else Predicate.Factors()
+        )
 
 
 class LessThan(Comparison, Infix):
